@@ -167,6 +167,25 @@ def all_core(args):
     return 1, [(k, d, [D]) for k, d in compare_options(b.options, reference_options(D, allc), allc, skip=NORMALISED - set(allc))]
 
 
+def seed_effect(_):
+    """'Takes effect with exactly the supplied value' for random_seed: right after construction with seed s the global
+    generator must be in the state np.random.seed(s) puts it in (x0 given, so construction draws nothing)."""
+    out = []
+    n = 0
+    for D in (1, 2):
+        for s in (0, 1, 12345):
+            n += 1
+            np.random.seed(987)
+            np.random.rand(5)
+            construct(D, {"display": "off", "random_seed": s})
+            got = np.random.rand(4)
+            np.random.seed(s)
+            ref = np.random.rand(4)
+            if not np.array_equal(got, ref):
+                out.append(("user-option-without-effect/random_seed", s, [D, s]))
+    return n, out
+
+
 def unknown_names(_):
     out = []
     n = 0
@@ -324,6 +343,8 @@ def replay(case, key):
         n, out = _fresh(("pair_block", case["block"]))
     elif kind == "allcore":
         n, out = _fresh(("all_core", [2]))
+    elif kind == "seedeffect":
+        n, out = _fresh(("seed_effect", 0))
     elif kind == "unknown":
         n, out = _fresh(("unknown_names", 0))
     elif kind == "owned":
@@ -357,6 +378,10 @@ def run(ctx):
     N += n
     for k, d, c in out:
         rep.violation("option value is not what the statement requires (all core overrides)", k, d, dict(kind="allcore"))
+    n, out = _fresh(("seed_effect", 0))
+    N += n
+    for k, d, c in out:
+        rep.violation("a supplied option does not take effect", k, d, dict(kind="seedeffect"))
     n, out = _fresh(("unknown_names", 0))
     N += n
     for k, d, c in out:
